@@ -644,6 +644,107 @@ another `NewStyle`), so the id it returns denotes the requested style -/
 theorem newStyle_single_section :
     writeSections "Styles" ("Styles", "tables") false (Impl.trace "NewStyle") = 1 := by decide +kernel
 
+/-! ### the shared-string index is read and cached inside the append's `File.mu` section -/
+
+/-- `appendPinned g tbl idx` walks a trace with the state (inside a section of `g`, an append to
+`tbl` whose index is not yet stored in `idx`, `tbl` re-read since that append). It demands: every
+write of `tbl` happens inside a section of `g`; after such a write the SAME section of `g` re-reads
+`tbl` (the index) and then writes `idx` (the cache) before `g` is released. -/
+def appendPinned (g : String) (tbl idx : Loc) : Bool → Bool → Bool → List Act → Bool
+  | _, pend, _, [] => !pend
+  | ins, pend, seen, .acq l :: r =>
+      if l = g then appendPinned g tbl idx true pend seen r else appendPinned g tbl idx ins pend seen r
+  | ins, pend, seen, .rel l :: r =>
+      if l = g then !pend && appendPinned g tbl idx false false false r
+      else appendPinned g tbl idx ins pend seen r
+  | ins, pend, seen, .rd y :: r =>
+      appendPinned g tbl idx ins pend (seen || (pend && y = tbl)) r
+  | ins, pend, seen, .wr y :: r =>
+      if y = tbl then ins && appendPinned g tbl idx ins true false r
+      else if y = idx && pend then seen && appendPinned g tbl idx ins false false r
+      else appendPinned g tbl idx ins pend seen r
+
+/-- number of writes of `x` in a trace -/
+def writesOf (x : Loc) (p : List Act) : Nat := (p.filter fun a => a == .wr x).length
+
+/-- meaning of the check, for EVERY trace: an accepted trace never writes `tbl` outside a section
+of `g` (whatever the state the walk is in) -/
+theorem appendPinned_write_inside (g : String) (tbl idx : Loc) :
+    ∀ (p : List Act) (ins pend seen : Bool), appendPinned g tbl idx ins pend seen p = true →
+      ∀ pre post, p = pre ++ .wr tbl :: post →
+        (pre.all fun a => a != .acq g && a != .rel g) = true → ins = true := by
+  intro p
+  induction p with
+  | nil => intro _ _ _ _ pre post h; cases pre <;> simp at h
+  | cons a r ih =>
+    intro ins pend seen h pre post hp hpre
+    cases pre with
+    | nil =>
+      simp only [List.nil_append, List.cons.injEq] at hp
+      obtain ⟨rfl, rfl⟩ := hp
+      simp only [appendPinned, if_true, Bool.and_eq_true] at h
+      exact h.1
+    | cons b pre' =>
+      simp only [List.cons_append, List.cons.injEq] at hp
+      obtain ⟨rfl, rfl⟩ := hp
+      simp only [List.all_cons, Bool.and_eq_true, bne_iff_ne, ne_eq] at hpre
+      obtain ⟨⟨hb1, hb2⟩, hrest⟩ := hpre
+      cases a with
+      | acq l =>
+        have hl : l ≠ g := fun e => hb1 (by rw [e])
+        simp only [appendPinned, if_neg hl] at h
+        exact ih _ _ _ h pre' post rfl hrest
+      | rel l =>
+        have hl : l ≠ g := fun e => hb2 (by rw [e])
+        simp only [appendPinned, if_neg hl] at h
+        exact ih _ _ _ h pre' post rfl hrest
+      | rd y =>
+        simp only [appendPinned] at h
+        exact ih _ _ _ h pre' post rfl hrest
+      | wr y =>
+        simp only [appendPinned] at h
+        split at h
+        · simp only [Bool.and_eq_true] at h; exact h.1
+        · split at h
+          · simp only [Bool.and_eq_true] at h
+            exact ih _ _ _ h.2 pre' post rfl hrest
+          · exact ih _ _ _ h pre' post rfl hrest
+
+/-- **shared_string_index_pinned** (pinned fact for `setSharedString`, clause "every string a
+goroutine wrote is the string its cell shows"): in every documented function, and in
+`setSharedString` itself, each append to the shared-string table (`sst.SI`, `Count`,
+`UniqueCount`) happens inside a `File.mu` section, and the SAME `File.mu` section then reads the
+table back (the index `sst.UniqueCount - 1`) and stores it in `sharedStringsMap` before `File.mu`
+is released. By `critical_sections_serialized` / `per_sheet_linearizable` (for the workbook-wide
+`File.mu`) no other goroutine's append falls between the append and the index read, so the index a
+call caches and puts into its cell is the index of the entry it appended — also for goroutines
+working on DIFFERENT worksheets, which no worksheet mutex excludes. Narrowing the critical section
+(`File.mu` only around the map, `sst.mu` only around the append) breaks this obligation. -/
+theorem shared_string_index_pinned :
+    ("setSharedString" :: api).all (fun f =>
+      appendPinned "File" ("Sst", "SI") ("File", "sharedStringsMap") false false false (Impl.trace f)) = true ∧
+    writesOf ("Sst", "SI") (Impl.trace "setSharedString") ≥ 1 ∧
+    writesOf ("Sst", "SI") (Impl.trace "SetCellStr") ≥ 1 ∧
+    writesOf ("Sst", "SI") (Impl.trace "SetCellValue") ≥ 1 := by decide +kernel
+
+/-- the check is not vacuous: the narrowed variant (look-up under `File.mu`, append and index
+read under `sst.mu` alone, `File.mu` re-taken for the cache store), which passes the guarded-by
+table, is rejected; so is the variant that keeps `File.mu` but reads the index in a later
+section -/
+theorem narrowed_shared_string_section_rejected :
+    appendPinned "File" ("Sst", "SI") ("File", "sharedStringsMap") false false false
+      [.acq "File", .rd ("File", "sharedStringsMap"), .rel "File",
+       .acq "Sst", .rd ("Sst", "SI"), .wr ("Sst", "SI"), .rd ("Sst", "SI"), .rel "Sst",
+       .acq "File", .wr ("File", "sharedStringsMap"), .rel "File"] = false ∧
+    okGuard guardOf (fun _ => true) []
+      [.acq "File", .rd ("File", "sharedStringsMap"), .rel "File",
+       .acq "Sst", .rd ("Sst", "SI"), .wr ("Sst", "SI"), .rd ("Sst", "SI"), .rel "Sst",
+       .acq "File", .wr ("File", "sharedStringsMap"), .rel "File"] = true ∧
+    appendPinned "File" ("Sst", "SI") ("File", "sharedStringsMap") false false false
+      [.acq "File", .rd ("File", "sharedStringsMap"), .acq "Sst", .wr ("Sst", "SI"), .rel "Sst", .rel "File",
+       .acq "File", .acq "Sst", .rd ("Sst", "SI"), .rel "Sst", .wr ("File", "sharedStringsMap"), .rel "File"] = false := by
+  decide +kernel
+
 /-! ### Spec: explaining a final state by a sequential order -/
 
 /-- soundness of the witness check the driver runs: if it accepts then the order
